@@ -24,11 +24,13 @@ func checkC08(w *World, tier string) *Report {
 	r := newReport("C08")
 	r.Explanation = "R8.1p (go/cfg, all paths of Call and create): SaveCall executes exactly once before every return — so attempts refused by the depth, balance, nonce and collision checks are recorded — and exactly one deferred ExitCall closes the node; " +
 		"R8.1a (resolved AST): SaveCall is preceded only by obtaining the recorder and its arguments are built from exactly this call's parameters (caller.Address(), &addr | nil, input | codeAndHash.code, value, gas), none of which is assigned before; ExitCall receives the function's own named results (leftover gas, ret, err); " +
-		"R8.2 (SSA borrowed-reference retention over all fork packages): a reference that may alias live interpreter memory (Memory.GetPtr, slices of Memory.store) or the live operand stack (Stack.peek/Back), directly or through parameters and struct fields it was passed/stored into, never reaches a store into recorder-owned memory (Call nodes, storage keys, change lists) without passing a copying call. Results of calls are followed through result-aliases-parameter summaries (interface calls resolved to every implementation in the fork, e.g. all precompile Run methods; captured result variables through the deferred closure); return data produced through the opcode table's function values is owned by the caller (reviewed axiom: opReturn/opRevert copy). R8.3 SaveCall/ExitCall forward their parameters positionally to add/exit, and there every parameter is stored into a field of the node on every recording path (add: a store that every return passes; exit: on every path with a non-nil cursor) — an outcome stored only for some error classes is not the outcome as seen. Program order of siblings and equality of recorded values with an independent log are not decided."
+		"R8.2 (SSA borrowed-reference retention over all fork packages): a reference that may alias live interpreter memory (Memory.GetPtr, slices of Memory.store) or the live operand stack (Stack.peek/Back), directly or through parameters and struct fields it was passed/stored into, never reaches a store into recorder-owned memory (Call nodes, storage keys, change lists) without passing a copying call. Results of calls are followed through result-aliases-parameter summaries (interface calls resolved to every implementation in the fork, e.g. all precompile Run methods; captured result variables through the deferred closure); calls through function values (the opcode table) are resolved by signature to every address-taken fork function. R8.4 the one ownership exception — the data a finished frame hands back points into that frame's own Memory, which is dead afterwards — rests on a checked premise: NewMemory returns a fresh allocation on every path and no Memory is ever pooled or stored globally. R8.5 the exported creation entry points (Create, Create2) reach create — where the attempt is recorded — on every path: no refusal is decided before the recorder has seen the attempt. R8.3 SaveCall/ExitCall forward their parameters positionally to add/exit, and there every parameter is stored into a field of the node on every recording path (add: a store that every return passes; exit: on every path with a non-nil cursor) — an outcome stored only for some error classes is not the outcome as seen. Program order of siblings and equality of recorded values with an independent log are not decided."
 	addR71(w, r, "R8.1p")
 	addR81a(w, r, "R8.1a")
 	addR82(w, r, "R8.2")
 	addR83(w, r, "R8.3")
+	addR84(w, r, "R8.4")
+	addR85(w, r, "R8.5")
 	r.Assumptions = append(r.Assumptions, "the byte slice returned by a finished frame (EVMInterpreter.Run, precompiles, join points) is not written by anyone else afterwards", "hosts calling EVM.Call/Create directly do not reuse the input buffer while the call tree is alive (only opcode-originated calls are analysed)")
 	return r
 }
@@ -622,4 +624,93 @@ func addR83(w *World, r *Report, rule string) {
 		}
 	}
 	r.need(rule, 10)
+}
+
+// ---- R8.4 a frame's memory is dead once the frame is gone -----------------------------------------------
+
+// addR84: the premise of treating Run's result as owned by the caller: NewMemory returns a fresh
+// allocation on every path, and no Memory object is ever handed to a pool or stored into a
+// package-level variable (a recycled buffer would be written by a later frame while an earlier frame's
+// return data, recorded in the call tree, still points into it).
+func addR84(w *World, r *Report, rule string) {
+	fn := w.Func(forkPath(pkVM), "NewMemory")
+	if fn == nil {
+		r.undecided(rule, "vm.NewMemory", "-", "function not found: the rule's anchor does not resolve")
+	} else if !returnsFreshAlloc(fn) {
+		r.violated(rule, "vm.NewMemory", w.pos(fn.Pos()), "NewMemory does not return a fresh allocation on every path (e.g. it takes a recycled object from a pool): return data of a finished frame, which the call tree keeps, would be overwritten by a later frame")
+	} else {
+		r.holds(rule, "vm.NewMemory", w.pos(fn.Pos()), "fresh allocation on every path")
+	}
+	isMem := func(t types.Type) bool { return typeBaseName(t) == "Memory" }
+	var bad []string
+	for _, f := range w.forkFuncsAll() {
+		for _, b := range f.Blocks {
+			for _, ins := range b.Instrs {
+				switch x := ins.(type) {
+				case ssa.CallInstruction:
+					cal := x.Common().StaticCallee()
+					if cal == nil || cal.Name() != "Put" || cal.Signature.Recv() == nil || !strings.HasSuffix(cal.Signature.Recv().Type().String(), "sync.Pool") {
+						continue
+					}
+					for _, a := range x.Common().Args[1:] {
+						v := a
+						if mi, ok := v.(*ssa.MakeInterface); ok {
+							v = mi.X
+						}
+						if isMem(v.Type()) {
+							bad = append(bad, relName(f)+" puts a Memory into a pool at "+w.pos(ins.Pos()))
+						}
+					}
+				case *ssa.Store:
+					if g, ok := x.Addr.(*ssa.Global); ok && isMem(x.Val.Type()) {
+						bad = append(bad, relName(f)+" stores a Memory into the package-level variable "+g.Name()+" at "+w.pos(ins.Pos()))
+					}
+				}
+			}
+		}
+	}
+	if len(bad) > 0 {
+		sort.Strings(bad)
+		r.violated(rule, "memory-recycling", "-", strings.Join(bad, "; "))
+	} else {
+		r.holds(rule, "memory-recycling", "-", "no Memory object is pooled or stored into a package-level variable anywhere in the fork")
+	}
+	r.need(rule, 2)
+}
+
+
+// addR85: Create and Create2 hand every attempt to create (which records it before any refusal check).
+func addR85(w *World, r *Report, rule string) {
+	n := 0
+	for _, fn := range w.Funcs(forkPath(pkVM)) {
+		// wrappers: methods of EVM that call create
+		calls := false
+		for _, b := range fn.Blocks {
+			for _, ins := range b.Instrs {
+				if ci, ok := ins.(ssa.CallInstruction); ok {
+					if cal := ci.Common().StaticCallee(); cal != nil && cal.Name() == "create" && isForkPkg(cal.Pkg) && cal != fn {
+						calls = true
+					}
+				}
+			}
+		}
+		if !calls || fn.Name() == "create" {
+			continue
+		}
+		n++
+		key := relName(fn) + "/always->create"
+		leak := mustCallBeforeReturn(fn, func(c ssa.CallInstruction) bool {
+			cal := c.Common().StaticCallee()
+			return cal != nil && cal.Name() == "create" && isForkPkg(cal.Pkg)
+		}, nil)
+		if leak != nil {
+			r.violated(rule, key, w.pos(leak.Pos()), "a path returns without calling create: an attempt refused here never reaches SaveCall and is missing from the call tree")
+		} else {
+			r.holds(rule, key, w.pos(fn.Pos()), "every path calls create")
+		}
+	}
+	if n < 2 {
+		r.violated(rule, "instance-count", "-", fmt.Sprintf("expected the two creation entry points Create and Create2, found %d callers of create: the rule's anchors no longer resolve", n))
+	}
+	r.need(rule, 2)
 }
